@@ -600,6 +600,28 @@ def r14_total_on_wellformed_input(idx, r):
               msg="the geometry name is compared as written: `geom: Hex`, which the lattice reader and GeomType accept, matches no branch")
 
 
+def r15_area_check_covers_every_design(idx, r):
+    """Blueprints._checkAssemblyAreaConsistency refuses assemblies of different area and assemblies whose blocks differ in area.  The loop
+    over the assembly designs may leave an iteration early only for R-Z assemblies (whose areas differ by definition): any other `continue`
+    exempts a design - e.g. the one taken as the reference - from the per-block comparison."""
+    f = idx.method("armi.reactor.blueprints.Blueprints", "_checkAssemblyAreaConsistency")
+    loops = [x for x in f.node.body if isinstance(x, ast.For)]
+    if len(loops) != 1:
+        raise AnchorMissing("_checkAssemblyAreaConsistency: the loop over the assemblies")
+    inner = [x for x in walk_local(loops[0]) if isinstance(x, ast.For) and x is not loops[0]]
+    raises = [x for x in walk_local(loops[0]) if isinstance(x, ast.Raise)]
+    if not inner or len(raises) < 2:
+        raise AnchorMissing("_checkAssemblyAreaConsistency: the per-block comparison and the two refusals")
+    for x in walk_local(loops[0]):
+        if isinstance(x, ast.Continue) and not any(x in list(walk_local(i)) for i in inner):
+            conds = [norm(t) for t, pol in path_conditions(f.node, x) if pol]
+            r.require(any("RZAssembly" in c for c in conds), "area-check:only-RZ-assemblies-skipped", f, node=x,
+                      msg=f"an assembly design leaves the consistency loop early under {conds or 'no condition'}: its blocks are never compared with each other, so a design with blocks of different area is accepted")
+    pc = [norm(t) for t, _p in path_conditions(f.node, inner[0]) if {x.id for x in ast.walk(t) if isinstance(x, ast.Name)} <= {"references", "None"}]
+    r.require(not pc, "area-check:block-comparison-for-the-reference-too", f, node=inner[0],
+              msg=f"the per-block comparison runs only under {pc}: the reference design is exempt")
+
+
 def run(idx, chk):
     chk.explanation = (
         "C18 is a relation between an input document and an object graph; static analysis claims only: (1) each lattice-map class reads and "
@@ -638,3 +660,5 @@ def run(idx, chk):
                  necessary="the built composition is the one the requested material modifications specify")
     chk.run_rule("R18.14", "an absent system origin is handled; the grid-geometry dispatch normalises the name and refuses unknown ones", lambda r: r14_total_on_wellformed_input(idx, r), floor=3,
                  necessary="a well-formed blueprint builds a model; an inconsistent one is refused with an error")
+    chk.run_rule("R18.15", "the assembly/block area consistency check skips only R-Z assemblies", lambda r: r15_area_check_covers_every_design(idx, r), floor=2,
+                 necessary="an inconsistent blueprint is refused with an error")
